@@ -38,19 +38,30 @@ def getSpecies (j : Json) : Except String (Res Species) := do
   | .error e => return .error e
   | .ok d => return .ok ⟨label, d, ch⟩
 
+def optFieldS {α} (j : Json) (k : String) (f : Json → Except String α) : Except String (Option α) :=
+  match fieldOpt j k with
+  | some v => do return some (← f v)
+  | none => pure none
+
+/-- a space description; every constructor argument may be omitted (then the generated constructor default applies) -/
 def getSpace (j : Json) : Except String (Res Space) := do
   let sys ← getSys (← field j "sys")
   if (← getStr (← field j "kind")) == "grid" then
-    let g ← getShape (← field j "shape")
-    let env ← getIntList (← field j "cell_env")
-    match (← getQIn (← field j "cell_vol")).toUVal sys Dim.volume with
-    | .error e => return .error e
-    | .ok v => return .ok (.grid g v env sys)
+    let sh := (fieldOpt j "shape").getD (Json.mkObj [])
+    let w ← optFieldS sh "w" getNat
+    let h ← optFieldS sh "h" getNat
+    let d ← optFieldS sh "d" getNat
+    let px ← optFieldS sh "px" getBool
+    let py ← optFieldS sh "py" getBool
+    let pz ← optFieldS sh "pz" getBool
+    let env ← optFieldS j "cell_env" getIntList
+    let vol ← optFieldS j "cell_vol" getQIn
+    return mkGridSpace w h d px py pz vol env sys
   else
     let nodes ← (← getArr (← field j "nodes")).mapM fun nd => do
       let nsys ← getSys (← field nd "sys")
-      return ((← getQIn (← field nd "vol")).toUVal nsys Dim.volume, ← getInt (← field nd "env"))
-    match seqRes (nodes.map fun (v, e) => match v with | .ok x => .ok (x, e) | .error er => .error er) with
+      return mkGraphNode (← optFieldS nd "vol" getQIn) (← optFieldS nd "env" getInt) nsys
+    match seqRes nodes with
     | .error e => return .error e
     | .ok l => return .ok (.graph l sys)
 
